@@ -375,9 +375,9 @@ def tables(rec):
     def cases():
         for n_samples in (1, 3):
             for times in ([3.0, 1.0, 2.0], [5.0], [2.0, 2.0, 0.5]):
-                for kind in ('individual', 'population', 'population+cov', 'prior', 'posterior', 'individual+regimen', 'population+regimen', 'posterior+regimen'):
+                for kind in ('individual', 'population', 'population+cov', 'prior', 'posterior', 'individual+regimen', 'population+regimen', 'population+cov+regimen', 'posterior+regimen'):
                     yield (kind, n_samples, tuple(times))
-        for kind in ('individual+regimen-indefinite', 'population+regimen-indefinite', 'posterior+regimen-indefinite'):
+        for kind in ('individual+regimen-indefinite', 'population+regimen-indefinite', 'population+cov+regimen-indefinite', 'posterior+regimen-indefinite'):
             for times in ((2.5, 1.0), (4.0, 0.5), (3.9,)):          # the last requested time is / is not a dosing time of the indefinite regimen 1.0, 2.5, 4.0, ...
                 yield (kind, 2, times)
         yield ('pam', 1500, (1.0, 0.5))
@@ -465,7 +465,7 @@ def tables(rec):
                 pop = real.ComposedPopulationModel([real.CovariatePopulationModel(real.GaussianModel(), real.LinearCovariateModel(n_cov=1)), real.PooledModel(n_dim=3)])
                 par = [1.0, 1e-6, 10.0, 0.0, 1.5, SD, SD]
                 cov = np.arange(1, n_samples + 1, dtype=float)[:, None]
-                df = real.PopulationPredictiveModel(pm, pop).sample(par, list(times), n_samples=n_samples, seed=4, covariates=cov)
+                df = real.PopulationPredictiveModel(pm, pop).sample(par, list(times), n_samples=n_samples, seed=4, covariates=cov, **kw)
                 msg, per_id = check_table(df, n_samples, times, tied=False, extra_obs=pop.get_covariate_names())
                 if msg:
                     return msg
@@ -475,7 +475,7 @@ def tables(rec):
                 for i_, c_ in zip(ids, cov[:, 0]):
                     if abs(per_id[i_][0] - (1.0 + 10.0 * c_)) > 0.2 or abs(per_id[i_][1] - 1.0) > 0.2:
                         return 'sample ID %d is labelled with covariate %.1f but was simulated with parameters (%.3f, %.3f), expected about (%.1f, 1.5)' % (i_, c_, per_id[i_][0], per_id[i_][1] + 0.5, 1.0 + 10.0 * c_)
-                return None
+                return check_regimen(df, ids, max(times), 0 if indefinite else 3) if regimen else None
             pop = real.ComposedPopulationModel([real.GaussianModel(), real.PooledModel(n_dim=3)])
             df = real.PopulationPredictiveModel(pm, pop).sample([1.0, 0.1, 1.5, SD, SD], list(times), n_samples=n_samples, seed=4, **kw)
             msg, per_id = check_table(df, n_samples, times, tied=False)
